@@ -489,6 +489,10 @@ func runFaultsMode(c *fw.Ctx, sigPrefix string, keep func(kind string) bool, cra
 						for fn, r := range files {
 							p.Files[fn] = r.Text
 						}
+						if faultProjectTap != nil {
+							faultProjectTap(name+" "+f.kind+" "+delivery, p)
+							continue
+						}
 						c.Distinct(fmt.Sprint(p.Files))
 						var o drv.Outcome
 						if len(files) == 1 {
@@ -541,6 +545,10 @@ func runFaultsMode(c *fw.Ctx, sigPrefix string, keep func(kind string) bool, cra
 		}
 	})
 }
+
+// faultProjectTap, when set, receives every faulty project runFaultsMode builds instead of its
+// own judgement (C02 judges them again under the other line-end conventions).
+var faultProjectTap func(label string, p drv.Project)
 
 // replaceNode replaces the node old by repl wherever it is in the forest.
 func replaceNode(nn *[]*doc.Node, old, repl *doc.Node) bool {
@@ -779,4 +787,12 @@ func runDupNames(c *fw.Ctx) {
 		}
 	}
 	rec("", maxLen)
+}
+
+func init() {
+	faultTapHook = func(c *fw.Ctx, tap func(label string, p drv.Project)) {
+		faultProjectTap = tap
+		defer func() { faultProjectTap = nil }()
+		runFaultsMode(c, "C02:nl:", func(kind string) bool { return true }, false)
+	}
 }
